@@ -385,6 +385,37 @@ def run(chk: core.Check) -> None:
         if set(got_all) != set(second):
             chk.fail({"carrier": "meta.user_defined_metadata = mapping", "assigned": sorted(second), "holds": sorted(got_all), "vclass": "names"},
                      "after assigning the mapping the metadata hold other names than the mapping")
+    # bulk writes: values that == takes for the same but that have different types, SIDE BY SIDE in one row
+    # (Table.set_values / Row.set_values / set_row_values: a writer that merges "equal" neighbours keeps one type for the run)
+    import itertools
+
+    from odfdo import Row as _Row
+    rows_ = []
+    for grp in EQUAL_LOOKING[:2]:
+        for k in (2, 3):
+            rows_ += [list(p_) for p_ in itertools.permutations(grp, k)]
+    rows_ += [[rng.choice(nonnull) for _ in range(rng.randint(2, 5))] for _ in range(chk.n(40, 400))]
+    for line in rows_:
+        for cname, write, read in (
+            ("Table.set_values", lambda t_, l_: t_.set_values([l_]), lambda t_: t_.get_values()[0]),
+            ("Table.set_row_values", lambda t_, l_: t_.set_row_values(0, l_), lambda t_: t_.get_row_values(0)),
+            ("Row.set_values", lambda t_, l_: t_.set_row(0, (lambda r_: (r_.set_values(l_), r_)[1])(_Row())), lambda t_: t_.get_row(0).get_values()),
+        ):
+            case = {"carrier": cname + " (one row)", "value": repr(line), "vclass": "+".join(vclass(v) for v in line)}
+            chk.count("carrier", cname + " (one row)")
+            chk.case((cname, repr(line)), nontrivial=True)
+            try:
+                tb = Table("B")
+                write(tb, line)
+                got = read(tb)
+                again = read(Element.from_tag(tb.serialize()))
+            except Exception as e:  # noqa: BLE001
+                chk.fail({**case, "exception": repr(e)}, f"{cname}: writing a row of values raised {type(e).__name__}")
+                continue
+            for where, g_ in (("", got), (" after re-parse", again)):
+                if len(g_) < len(line) or not all(canon_ok(v, x) for v, x in zip(line, g_)):
+                    chk.fail({**case, "got": repr(g_)}, f"{cname}: a row of values written at once is not read back value by value, type by type{where}")
+                    break
     # cells in a spreadsheet saved and reopened
     sdoc = Document("spreadsheet")
     sdoc.body.clear()
